@@ -37,8 +37,29 @@ def unmirror_int_fields(src: str) -> str:
     return _unmirror(src, lambda l: l in ("global GroupSize", "txn GroupIndex"), ("<", "<=", ">", ">="))
 
 
+def return_after_final_callsub(src: str) -> str:
+    """A program whose last instruction is a callsub continues, after the callee's retsub, at
+    the end of the program; an explicit `return` there is equivalent whenever the stack holds
+    one value (equivalence is re-checked with E1 before the repair is trusted)."""
+    lines = [l for l in tokenize(src)]
+    if lines and lines[-1].op == "callsub":
+        return src.rstrip("\n") + "\nreturn\n"
+    return src
+
+
+def label_after_final_branch(src: str) -> str:
+    """A conditional branch as last instruction falls through to the end of the program; a
+    (no-op) label after it makes that fall-through an ordinary block."""
+    lines = [l for l in tokenize(src)]
+    if lines and lines[-1].op in ("bz", "bnz", "switch", "match"):
+        return src.rstrip("\n") + "\nverif_end_of_program:\n"
+    return src
+
+
 REPAIRS: Dict[str, Callable[[str], str]] = {
     "unmirror-int-fields": unmirror_int_fields,
+    "label-after-final-branch": label_after_final_branch,
+    "return-after-final-callsub": return_after_final_callsub,
 }
 
 
@@ -199,7 +220,26 @@ def _patch_kind_partitions() -> Any:
     return cm()
 
 
+def _relax_oracle(name: str) -> Callable[[], Any]:
+    def mk() -> Any:
+        import contextlib  # pylint: disable=import-outside-toplevel
+        from mc import abstract  # pylint: disable=import-outside-toplevel
+
+        @contextlib.contextmanager
+        def cm() -> Any:
+            abstract.RELAX.add(name)
+            try:
+                yield
+            finally:
+                abstract.RELAX.discard(name)
+
+        return cm()
+
+    return mk
+
+
 PATCHES: Dict[str, Callable[[], Any]] = {
+    "oracle:fee-upper-bounds-only": _relax_oracle("fee-upper-bounds-only"),
     "appid-partition": _patch_appid_partition,
     "kind-partitions": _patch_kind_partitions,
 }
@@ -227,5 +267,12 @@ def by_patch(worker: Callable[[Any, Any], None]) -> Callable[[Dict[str, Any], Di
             rerun_cache[rkey] = None if res.errors else [(x["kind"], place_of(x)) for x in res.violations]
         left = rerun_cache[rkey]
         return left is not None and (v["kind"], place_of(v)) not in left
+
+    return attribute
+
+
+def any_of(*fns: Callable[[Dict[str, Any], Dict[str, Any]], bool]) -> Callable[[Dict[str, Any], Dict[str, Any]], bool]:
+    def attribute(entry: Dict[str, Any], v: Dict[str, Any]) -> bool:
+        return any(f(entry, v) for f in fns)
 
     return attribute
